@@ -113,7 +113,7 @@ class LockRun:
     def do(self, c: int, t: int):
         w = self.world
         lock = self.lock
-        self.script += [c, t]          # every operation performed, incl. the harness-only ones (5 deferred, 6, 7, 8)
+        self.script += [c, t]          # every operation performed, incl. the harness-only ones (5 = scope cancel of a blocked acquire, mapped to model op 4 or to nothing; 6 = task end, no model op); 7, 8, 9 are the model ops EnterCancelled / SpinCancel / SpinReturn of LockEntry
         before = self.observe()
         if c == 0:
             CancelScope = self.anyio.CancelScope
@@ -396,6 +396,7 @@ def check(tier: str) -> int:
     rep.assumptions = core.TRUSTED_BASE_COMMON + [
         "model prims/Lock.v hand-written from class Lock in _asyncio.py, extended by prims/LockEntry.v with acquire() calls made from an already effectively cancelled scope (ops EnterCancelled / SpinCancel / SpinReturn: the check may yield and return, F46/F53; the run is compared through LockEntry.run_case, codes 0-4 as in Lock.v); cancellation modelled as native Task.cancel() on blocked tasks (superset of what AnyIO scope delivery does to a blocked task)",
         "tie T: tools/translate_lock.py (python ast -> coq/prims/LockGen.v, fail-closed grammar in its docstring) regenerates the segments of Lock.acquire/acquire_nowait/release/locked on every run and prims/LockGenEq.v proves their interpretation (prims/LockImp.v: exec) equal to Lock.step for all states and tasks. Trusted in it: the translator's mapping of Python constructs to LockImp statements, the cutting of acquire() at its awaits into entry/continuation segments, CPython's await/exception semantics at the cut points (which continuation runs, locals persist: LockImp.gstep), and the reading of checkpoint_if_cancelled() at the start of an uncontended acquire as a no-op when the caller's scope is not cancelled (C08 covers the cancelled case). The translator is not the only tie: the same model is co-simulated against the running code below",
+        "callers without a current task (outside C09's quantification, recorded only; hunt/round2/E/2): Lock.acquire_nowait() / release() called from a context that has no current task - from_thread.run_sync(lock.acquire_nowait), loop.call_soon callbacks - succeed without locking (two holders, silently); every model op has a task as its actor and every C09 history consists of tasks of one event loop",
     ]
     # tie T: regenerate the segments from the source under test, then rebuild the cone (LockGen, LockGenEq, props/C09);
     # both under the `tiegen` lock so that a concurrent check against another tree cannot swap the generated file
@@ -466,7 +467,7 @@ def check(tier: str) -> int:
         tie_broken.append("proof obligation: " + str(rep.coverage.get("proof_failure", {}).get("where")))
         tie_broken += tie_T_broken
     if disagreements:
-        tie_broken.append("correspondence Lock.run_case vs anyio.Lock")
+        tie_broken.append("correspondence LockEntry.run_case vs anyio.Lock")
     if rejected:
         tie_broken.append(f"model rejected {rejected} ops the implementation performed")
     if not vm_ok and not disagreements:
@@ -491,7 +492,7 @@ def check(tier: str) -> int:
         "traces_validated_against_impl": len(runs) - len(disagreements),
         "disagreements_checked": len(disagreements),
         "distinct_nontrivial": distinct,
-        "rule": "random walk over the ops the implementation enables (idle task: acquire/acquire_nowait/release; blocked task: resume if its wake-up is queued, native cancel), 2-5 tasks, fast_acquire on/off, then quiescence; plus exhaustive enumeration of all enabled op sequences to a fixed depth; non-trivial = reaches a contended wait, a cancelled waiter or a hand-off",
+        "rule": "random walk over the ops the implementation enables (idle task: acquire/acquire_nowait/release, task end, acquire inside an already cancelled scope - at most one such spinning call at a time; blocked task: resume if its wake-up is queued, native cancel, scope cancel; spinning call: cancellation delivered or check returns after a shield was raised), 2-5 tasks, fast_acquire on/off, then quiescence; plus exhaustive enumeration of all enabled op sequences to a fixed depth; non-trivial = reaches a contended wait, a cancelled waiter or a hand-off",
         "exhaustive_small_scope_cases": exhaustive,
         "corpus_cases": n_corpus,
         "reached": flags,
